@@ -29,6 +29,18 @@ CHECKS = {
    tech="TLA+ spec SearchFlow.tla enumerates the scenario space with TLC; each scenario is executed repeatedly (same process, re-loaded copy, separate process) on the real engine and TLC validates the recorded answers against TraceSearch.tla (all repetitions identical)",
    text="TLC enumerates entry point x option x query-kind x corpus scenarios from the SearchFlow model; a stratified sample (all of them in the thorough tier) plus tie-heavy and shipped-database cases is executed on the real engine 6-25 times in-process, on a freshly loaded copy and in a separate process, and TLC checks on the recorded events that every repetition returned the identical documents in the identical order with identical score bits, and that 'did you mean' suggestions are reproducible.",
    note="Map iteration order is randomised by the Go runtime on every loop, so repetition samples the 'scheduler'; exhaustiveness is over scenarios, not over iteration orders."),
+ "C01": dict(cat="model_checking", ref="DESIGN.md section 5, C01",
+   tech="TLA+ spec SearchFlow.tla: TLC model-checks the staged engine over the full scenario cross product and enumerates it; every scenario is executed on the real entry points (incl. the real binary for the CLI path) and TLC validates the recorded answers against TraceSearch.tla",
+   text="TLC explores the abstract engine pipeline (score, typo fallback, recovery, limit) for every combination of entry point, limit class, NLP/fuzzy/threshold/pipeline/platform/boost options, query kind and corpus, checking the bound at the design level (defect switches FuzzyCap/RecoverCap regenerate the known counterexamples); the enumerated scenarios (stratified sample in quick, all in thorough) plus tie-heavy and shipped-database cases run on the real code through SearchUniversal, Search, the pipeline search, the cached and monitored wrappers and the real wtf binary, and TLC checks for each recorded answer: length <= limit in force, members of the database, no duplicates, finite non-negative scores, non-increasing order.",
+   note="Scenario classes are exhaustive, strings within a class are representatives; default limits are measured, not hard-coded."),
+ "C04": dict(cat="model_checking", ref="DESIGN.md section 5, C04",
+   tech="TLA+ specs Corpus.tla (eligibility predicates) + SearchFlow.tla: TLC model check and scenario enumeration; scenarios executed on the real engine; TLC validates every result's platform/pipeline class against the predicates",
+   text="The eligibility predicates of the statement are written once in Corpus.tla; TLC checks them on the abstract engine for every flag combination and path, and evaluates the same predicates on the attributes of every result the real engine returns for the enumerated scenarios over a corpus with one document per (declared platforms x tool x pipeline) combination, on the lexical, NLP, typo-fallback, cached, pipeline and CLI paths, plus shipped-database queries.",
+   note="Generous classification (unknown documents never checked); host platform linux."),
+ "C07": dict(cat="model_checking", ref="DESIGN.md section 5, C07",
+   tech="TLA+ spec SearchFlow.tla (Fallback stage and its invariants): TLC model check + scenario enumeration; paired real searches (typo tolerance on/off) validated by TLC against TraceSearch.tla",
+   text="TLC checks on the abstract engine that the fallback stage is enabled only when nothing was scored, returns only sufficiently good subsequence matches and is complete; for every enumerated scenario with typo tolerance on, the real search is run with and without it and TLC checks the recorded pair: identical answers whenever the plain search finds something, otherwise every result contains the query as a subsequence, meets the requested threshold, best first, and an eligible subsequence match is never left unanswered when no threshold is set.",
+   note="Match quality recomputed with the matcher library per result; threshold 0 = unset."),
 }
 NOT_APPLICABLE = {}
 
